@@ -1,13 +1,27 @@
 """C01 agreement."""
-import vlib
 from props import simcommon
 
 HARNESS = ["sim"]
 ASSUMPTIONS = ["no equivocation (fork-free DAG); honest nodes only; signature R components pairwise distinct",
-               "ECDSA signing is randomised: a seed fixes the schedule, not the signature bytes"]
+               "ECDSA signing is randomised: a seed fixes the schedule, not the signature bytes",
+               "theorems: static validator set inside one fame decision; view_ok/same_history hypotheses (stages S1-S3) not yet discharged from the DAG invariants"]
 
 def run(ctx):
-    res = simcommon.run(ctx, "static")
-    findings, diffs = simcommon.findings_for(res, "C01", None)
-    cov = simcommon.coverage_from(res, "Oracle: pairwise prefix-consistency of delivered blocks (all listed fields, state hash through the body id) after every action.")
+    cov, findings, diffs = None, [], []
+    for fl in ("static", "dyn"):
+        res = simcommon.run(ctx, fl)
+        f, d = simcommon.findings_for(res, "C01", None)
+        findings += f; diffs += d
+        c = simcommon.coverage_from(res, "Oracle: pairwise prefix-consistency of delivered blocks (index, round-received, transactions, internal "
+            "transactions + receipts, frame hash, peers hash, timestamp, state hash through the body id) after every action. flavour=" + fl)
+        if cov is None: cov = c
+        else:
+            for k in ("evaluations", "distinct_nontrivial", "histories", "traces_validated_against_impl"):
+                cov[k] += c[k]
+            cov["samples"] += c["samples"][:1]; cov["histogram_" + fl] = c["histogram"]
+    if diffs and not findings:
+        ctx["notes"].append("correspondence broken without an oracle finding: escalated search (thorough parameters)")
+        for fl in ("static", "dagrun"):
+            findings += simcommon.escalate(ctx, fl, "C01")
+            if findings: break
     return dict(findings=findings, coverage=cov, corr_diffs=diffs)
